@@ -553,6 +553,15 @@ ocp.set_der(v, a)
             # However, different entries of v have different widths of coefficients
             # Hence, we will have to add separate constraints for each width
 
+            # A row that combines entries of different widths cannot be bounded block by block:
+            # each block would get the full bounds and their sum none
+            widths_per_row = defaultdict(set)
+            for w in self.unique_widths:
+                for r in ca.sum2(A[:,np.nonzero(self.widths==w)[0]].sparsity()).row():
+                    widths_per_row[r].add(w)
+            if any(len(ws)>1 for ws in widths_per_row.values()):
+                raise Exception("A constraint with grid='inf' combines signals of different degree (e.g. a state and its derivative). SplineMethod cannot bound such a sum on the coefficients; use grid='control' with refine.")
+
             # Partition constraints into blocks per width
             for w in self.unique_widths:
                 # Selector for specific width
